@@ -44,21 +44,32 @@ def line_mesh(ne, elemType="SEG2", length=1.0, direction=(1.0, 0.0, 0.0), with_p
     return mesh_from_arrays(groups, coords)
 
 
-def make_symsimu(mesh):
-    """A real simulation (subclass of Simulations.Thermal: one dof per node) whose local matrix system is supplied by the check."""
+def make_symsimu(mesh, dof_n=1):
+    """A real simulation (subclass of Simulations.Thermal) whose local matrix system is supplied by the check
+    through the documented extension point `Construct_local_matrix_system`.
+    `mats[groupElem.elemType] = (K_e, C_e, M_e, F_e)`; `groups` (optional) lists the contributing element groups
+    (any dimension: a user subclass may add boundary groups)."""
     from EasyFEA import Models, Simulations
 
     class SymSimu(Simulations.Thermal):
-        def __init__(self, mesh):
+        def __init__(self, mesh, dof_n):
             model = Models.Thermal(k=1.0, c=1.0, thickness=1.0)
+            self._dof_n = dof_n
             super().__init__(mesh, model, verbosity=False)
             self.mats = {}
+            self.groups = None
             self.residual_mode = False
-            self.fext = None
+
+        def Get_dof_n(self, problemType=None):
+            return self._dof_n
+
+        def Get_unknowns(self, problemType=None):
+            return ["t"] if self._dof_n == 1 else ["x", "y", "z", "rx", "ry", "rz"][: self._dof_n]
 
         def Construct_local_matrix_system(self, problemType):
             out = {}
-            for g in self.mesh.Get_list_groupElem():
+            groups = self.groups if self.groups is not None else self.mesh.Get_list_groupElem()
+            for g in groups:
                 K_e, C_e, M_e, F_e = self.mats[g.elemType]
                 if self.residual_mode:
                     # non-linear convention: K = tangent pieces, F = -(R(u)) at the current Newton iterate
@@ -82,7 +93,7 @@ def make_symsimu(mesh):
                 out[g] = (K_e, C_e, M_e, F_e)
             return out
 
-    return SymSimu(mesh)
+    return SymSimu(mesh, dof_n)
 
 
 def sym_elem_mats(group, name, slots=("K", "C", "M", "F"), lo=-1, hi=1, spd_shadow=True):
@@ -114,3 +125,41 @@ def sym_elem_mats(group, name, slots=("K", "C", "M", "F"), lo=-1, hi=1, spd_shad
     else:
         out["F"] = None
     return out["K"], out["C"], out["M"], out["F"]
+
+
+def small_mesh(kind, perm=None):
+    """Hand-built small real meshes (bulk group(s) + boundary segments + corner points). `perm`: node renumbering
+    new_id = perm[old_id] applied to connectivity and coordinates."""
+    if kind == "tri4":  # unit square + centre, 4 triangles
+        X = [(0, 0), (1, 0), (1, 1), (0, 1), (0.5, 0.45)]
+        groups = [("TRI3", [[0, 1, 4], [1, 2, 4], [2, 3, 4], [3, 0, 4]]), ("SEG2", [[0, 1], [1, 2], [2, 3], [3, 0]]), ("POINT", [[0], [1], [2], [3]])]
+    elif kind == "quad2":
+        X = [(0, 0), (1, 0), (2.1, 0), (0, 1), (1.1, 0.9), (2, 1.2)]
+        groups = [("QUAD4", [[0, 1, 4, 3], [1, 2, 5, 4]]), ("SEG2", [[0, 1], [1, 2], [2, 5], [5, 4], [4, 3], [3, 0]]), ("POINT", [[0], [2], [5], [3]])]
+    elif kind == "mixed":  # one quadrangle and two triangles sharing nodes
+        X = [(0, 0), (1, 0), (2, 0), (0, 1), (1, 1), (2, 1)]
+        groups = [("QUAD4", [[0, 1, 4, 3]]), ("TRI3", [[1, 2, 5], [1, 5, 4]]), ("SEG2", [[0, 1], [1, 2], [2, 5], [5, 4], [4, 3], [3, 0]]), ("POINT", [[0], [2], [5], [3]])]
+    elif kind == "tri6_2":
+        X = [(0, 0), (1, 0), (1, 1), (0, 1), (0.5, 0), (1, 0.5), (0.5, 1), (0, 0.5), (0.5, 0.5)]
+        groups = [("TRI6", [[0, 1, 2, 4, 5, 8], [0, 2, 3, 8, 6, 7]]), ("SEG3", [[0, 1, 4], [1, 2, 5], [2, 3, 6], [3, 0, 7]]), ("POINT", [[0], [1], [2], [3]])]
+    elif kind == "seg3":
+        X = [(0, 0), (0.4, 0), (1.0, 0), (1.7, 0)]
+        groups = [("SEG2", [[0, 1], [1, 2], [2, 3]]), ("POINT", [[0], [3]])]
+    elif kind == "tetra2":
+        X3 = [(0, 0, 0), (1, 0, 0), (0, 1, 0), (0, 0, 1), (1, 1, 1)]
+        groups = [("TETRA4", [[0, 1, 2, 3], [1, 2, 3, 4]]), ("TRI3", [[0, 2, 1], [0, 1, 3], [0, 3, 2], [1, 2, 4], [1, 4, 3], [2, 3, 4]])]
+        X = None
+    else:
+        raise ValueError(kind)
+    if X is not None:
+        coords = np.zeros((len(X), 3))
+        coords[:, :2] = np.asarray(X, dtype=float)
+    else:
+        coords = np.asarray(X3, dtype=float)
+    if perm is not None:
+        perm = np.asarray(perm, dtype=int)
+        newc = np.zeros_like(coords)
+        newc[perm] = coords
+        coords = newc
+        groups = [(et, perm[np.asarray(cn, dtype=int)]) for et, cn in groups]
+    return mesh_from_arrays(groups, coords)
